@@ -4,7 +4,7 @@
    (opening ignores masking -- C01; masking twice = masking with the combined secret) appear in the statements
    and are proved for both encodings in C02_vtmf_remask_homomorphic / C02_qr_mask_homomorphic. *)
 From Coq Require Import ZArith NArith List Bool Lia Permutation.
-From LT Require Import gen_Consts Zbase CodecModel SamplerModel SamplerLemmas ShuffleModel ShuffleLemmas.
+From LT Require Import gen_Consts Zbase CodecModel SamplerModel SamplerLemmas ShuffleModel ShuffleLemmas ShuffleQrModel ShuffleQrLemmas.
 Import ListNotations.
 Local Open Scope N_scope.
 
@@ -86,6 +86,14 @@ Theorem C02_vtmf_glue_ok : forall p q g h, (1 < p)%Z -> (0 < q)%Z -> powm g q p 
 Proof. exact vtmf_glue_ok. Qed.
 Print Assumptions C02_vtmf_glue_ok.
 
+(* QR encoding: TMCG_CreateCardSecret for every ring, width, index and coin list -- the compensation row makes every
+   column of secret bits XOR to zero, which is what keeps the card type under masking (TMCG_TypeOfCard XORs the columns) *)
+Theorem C02_qr_card_secret_columns_xor_zero : forall ms w index s cs s', create_card_secret ms w index s = Ret (cs, s') ->
+  (index < length ms)%nat /\ length cs = length ms /\ Forall (fun r => length r = w) cs /\
+  col_xor w (map (map snd) cs) = repeat false w.
+Proof. exact create_card_secret_col_xor. Qed.
+Print Assumptions C02_qr_card_secret_columns_xor_zero.
+
 (* ---- freshly generated secrets ---- *)
 (* for EVERY coin list: whatever Fisher-Yates returns is a bijection on {0..n-1} *)
 Theorem C02_fisher_yates_perm : forall n s pi s', random_permutation_fast n s = Ret (pi, s') -> Permutation (iota n) pi.
@@ -162,3 +170,10 @@ Example C02_nonvacuous_create_cyclic :
 Proof. vm_compute. reflexivity. Qed.
 Example C02_nonvacuous_in_range : in_range Z 3 [(2, 5%Z); (0, 3%Z); (1, 7%Z)].
 Proof. repeat constructor. Qed.
+Example C02_nonvacuous_qr_secret :
+  create_card_secret [7%Z; 11%Z; 13%Z] 1 1 (repeat 0 8 ++ [3; 1] ++ repeat 0 8 ++ [2] ++ repeat 0 8 ++ [5; 0])
+  = Ret ([[(3%Z, true)]; [(2%Z, true)]; [(5%Z, false)]], []).
+Proof. vm_compute. reflexivity. Qed.
+Example C02_nonvacuous_qr_mask :
+  qmask_card [(77,6);(221,5)]%Z [[2;3];[4;5]]%Z [[(2,true);(3,false)];[(5,false);(6,true)]]%Z = Ret [[48; 27]; [100; 16]]%Z.
+Proof. vm_compute. reflexivity. Qed.
